@@ -61,6 +61,52 @@ def id_type_tables(ctx, ty, rule):
     return len(ser) + len(de)
 
 
+PASS_THROUGH = re.compile(r'(Try::branch|Option::(ok_or_else|ok_or|map|and_then)|Result::(map_err|ok)|Value::as_(str|u64|i64)|From::from|Into::into|FromStr::from_str|'
+                          r'ByteString::from_base64|Guid::from_str|Deserialize::deserialize|String::from|ToString::to_string|ToOwned::to_owned|UAString::from|'
+                          r'Borrow::borrow|AsRef::as_ref|Deref::deref|Clone::clone|str::parse)$')
+
+
+def identifier_unchanged(ctx, rule='identifier-unchanged'):
+    """the identifier a NodeId / ExpandedNodeId is rebuilt from is the JSON "Id" value itself: between Value::as_str / as_u64 and
+    NodeId::new only conversions appear (parse a number / Guid / base64, String::from, error mapping) - no call that edits the
+    text (trim, case folding, replace ..), which would make " x" and "x" the same node"""
+    r, db = ctx.r, ctx.db
+    n = 0
+    for ty in ('types::node_id::NodeId', 'types::expanded_node_id::ExpandedNodeId'):
+        bs = db.find_bodies(r'^<' + re.escape(ty) + r' as .*Deserialize<.de>>::deserialize$')
+        if not bs:
+            r.lost(rule, ty.rsplit('::', 1)[-1], 'deserializer of %s not found' % ty); continue
+        b = bs[0]; F = ctx.facts(b)
+        news = [c for c in b.calls() if re.search(r'NodeId::new$', c.callee)]
+        for i, c in enumerate(news):
+            if len(c.args) < 2:
+                continue
+            n += 1
+            sym = F.sym_operand(c.args[1])
+            bad = []
+            def walk(s_):
+                if isinstance(s_, tuple) and s_:
+                    if s_[0] == 'call':
+                        if not PASS_THROUGH.search(s_[1]):
+                            bad.append(s_[1].rsplit('::', 2)[-2] + '::' + s_[1].rsplit('::', 1)[-1] if '::' in s_[1] else s_[1])
+                        for a_ in s_[2]:
+                            walk(a_)
+                    else:
+                        for x_ in s_[1:]:
+                            walk(x_)
+            walk(sym)
+            key = '%s:new#%d' % (ty.rsplit('::', 1)[-1], i)
+            if 'Deserialize::deserialize' not in fmt_sym(b, sym):
+                r.lost(rule, key, 'the identifier value is not traced back to the deserialized JSON (%s)' % fmt_sym(b, sym)[:100])
+            elif bad:
+                r.fail(rule, key, 'the identifier read from JSON passes through %s before NodeId::new: the value is edited, so a NodeId does not come back equal to the one '
+                       'that was written' % ', '.join(sorted(set(bad))), loc=c.loc)
+            else:
+                r.ok(rule, key, 'identifier = JSON value through conversions only', loc=c.loc)
+    r.count('identifier_sites', n)
+    r.floor(rule, 'identifier_sites', n, 4)
+
+
 def run(ctx):
     r, db = ctx.r, ctx.db
     r.explanation = ('Type-code tables only, a necessary condition of the JSON round trip for the types whose JSON form carries a type '
@@ -77,6 +123,7 @@ def run(ctx):
     r.floor('id-type-table', 'id_type_entries', n, 16)
     null_vs_empty(ctx)
     range_limits(ctx)
+    identifier_unchanged(ctx)
     # (b) json_id
     rule = 'variant-json-id'
     jb = db.find_bodies(r'^types::variant_json::<impl types::variant::Variant>::json_id$')
